@@ -514,3 +514,7 @@ type PtrConts struct {
 	Tags  map[string]*Inner
 	IL    InnerList
 }
+
+// Tree / JMap: recursive container types (a list of lists of ..., a map of maps of ...).
+type Tree []Tree
+type JMap map[string]JMap
